@@ -67,7 +67,7 @@ pub fn threshold(rng: &mut ChaCha20Rng, thorough: bool) -> u32 {
   let small = [1u32, 2, 3, 4, 5, 7, 8];
   let mid = [16u32, 17, 31, 32, 33];
   let big = [63u32, 64, 65];
-  let huge = [100u32, 128, 255];
+  let huge = [100u32, 128, 255, 256, 257, 300];
   match rng.gen_range(0..100) {
     0..=64 => *pick(rng, &small),
     65..=89 => *pick(rng, &mid),
